@@ -258,10 +258,18 @@ def run(F, R, tier):
     n_s = 0
     for v in vals:
         g = guards_at(F, v)
-        in_string = any(x.kind == "pat" and x.pol and "Value::String" in pat_text(x.pat) and tyc(F, x.scrut, "serde_json::Value") and not tyc(F, x.scrut, "Option<") for x in g)
+        in_string = any(x.kind == "pat" and x.pol and "Value::String" in pat_text(x.pat) and tyc(F, x.scrut, "serde_json::Value") and not tyc(F, x.scrut, "Option<") and any(mentions_field(y, "exports") for y in through_locals(x.scrut)) for x in g)
         if not in_string:
             continue
         n_s += 1
+        pv = peel(v)
+        if pv.get("k") == "MethodCall" and pv["name"] in ("then_some", "then"):
+            # `(export_name == ".").then_some(path)`: Some for `.`, None otherwise, in one expression
+            c_ = peel(pv["recv"])
+            ok_ = c_.get("k") == "Binary" and c_["op"] == "==" and any(peel(c_[s_]).get("v") == "." for s_ in ("l", "r"))
+            n_s += 1
+            R.ob("C07-a", "string-valued exports: a path is answered exactly for the `.` export", ok_, "export() answers `%s` for a string manifest" % expr_text(pv)[:50], where(v))
+            continue
         dot = [x for x in g if x.kind == "cond" and x.node.get("k") == "Binary" and x.node["op"] in ("==", "!=") and any(peel(x.node[s_]).get("v") == "." for s_ in ("l", "r"))]
         is_dot = any(x.pol == (x.node["op"] == "==") for x in dot)
         some = ctor_of(v) == "std::option::Option::Some"
